@@ -37,6 +37,7 @@ type NCase struct {
 }
 
 type NRun struct {
+	lastNVBlocks map[uint64]*fakes.Block // blocks proven by the proofs inside the last valid NEW_VIEW that was built
 	W         *World
 	Me        *Node
 	Accepted  []bool // per cand step: did it have an effect
@@ -220,6 +221,9 @@ func (r *NRun) validNewView(v uint64, A int) *MsgSpec {
 	if x := int64((A/4)%4) - 1; x >= 0 && k > 1 {
 		pvs[1] = x
 	}
+	if A >= 16 && k > 2 { // a third proof, on the last voter (so that the highest proof is not always among the first)
+		pvs[k-1] = int64(A/16) % 4
+	}
 	blocks := map[uint64]*fakes.Block{}
 	votes := r.validVotes(v, pvs, blocks)
 	// the node's own genuine vote for (h,v), if it has sent one (needed when the others alone are below quorum weight)
@@ -265,6 +269,7 @@ func (r *NRun) validNewView(v uint64, A int) *MsgSpec {
 	} else {
 		blk = r.freshBlock(fmt.Sprintf("nv%d", v))
 	}
+	r.lastNVBlocks = blocks
 	ppr := a.ref(TPP, h, v, blk.Hash())
 	pps := a.signedRef(leader, ppr)
 	sp := &MsgSpec{Union: UNV, NVType: TNV, NVInst: uint64(Instance), NVH: h, NVV: v, Votes: votes, PPRef: &ppr, PPSend: &pps, Block: blk}
@@ -377,6 +382,7 @@ var MutationKinds = []string{
 	"proof-outsider-preparer", "proof-preparer-sig", "proof-below-quorum", "proof-inst", "proof-height", "proof-types", "proof-add",
 	"votes-drop", "votes-dup", "votes-unsigned", "votes-resigned-by-other", "votes-outsider", "votes-view", "votes-height", "votes-inst", "votes-type",
 	"nvpp-view", "nvpp-height", "nvpp-hash", "nvpp-signer", "nvpp-sig", "nvpp-type", "nvpp-inst", "nv-other-block", "nv-invalid-block", "nv-ignore-lock",
+	"nv-lower-proof-block", "nv-lower-proof-block", "votes-reverse",
 }
 
 func otherType(t uint16, a int) uint16 {
@@ -825,6 +831,29 @@ func (r *NRun) mutate(sp *MsgSpec, mu Mutation) bool {
 		sp.Block = b
 		sp.PPRef.Hash = b.Hash()
 		resignRef(sp.PPRef, sp.PPSend)
+	case "nv-lower-proof-block": // several proofs among the votes: re-propose the block of a LOWER one, consistently
+		var lowV, highV int64 = 1 << 62, -1
+		for _, vt := range sp.Votes {
+			if vt.Proof != nil {
+				if int64(vt.Proof.PP.V) < lowV {
+					lowV = int64(vt.Proof.PP.V)
+				}
+				if int64(vt.Proof.PP.V) > highV {
+					highV = int64(vt.Proof.PP.V)
+				}
+			}
+		}
+		if highV < 0 || lowV == highV || r.lastNVBlocks[uint64(lowV)] == nil {
+			return false
+		}
+		b := r.lastNVBlocks[uint64(lowV)]
+		sp.Block = b
+		sp.PPRef.Hash = b.Hash()
+		resignRef(sp.PPRef, sp.PPSend)
+	case "votes-reverse": // same votes in another order (the order must not matter)
+		for i, j := 0, len(sp.Votes)-1; i < j; i, j = i+1, j-1 {
+			sp.Votes[i], sp.Votes[j] = sp.Votes[j], sp.Votes[i]
+		}
 	case "nv-invalid-block":
 		b := r.freshBlock("nvinvalid")
 		b.Valid = false
